@@ -1,3 +1,5 @@
+//go:build go1.25
+
 package props
 
 // c15_notifier — model-based stateful testing of bigbuff.Notifier inside a synctest bubble (property C15):
